@@ -75,6 +75,61 @@ def parseJobId (jid : String) : Option (String × String) :=
   | [a, b] => some (String.ofList a, String.ofList b)
   | _ => none
 
+/-! ### keys of any hashable type
+
+`Storage` declares keys (and identifiers) `Hashable`, not `str`: `store_search_value(sid, 1, a)` and
+`store_search_value(sid, "1", b)` are two entries, as are `None` / `"None"` and `(0, 1)` / `"(0, 1)"`.  The model keeps
+string keys; a key of another type is *rendered* to a string that no other key renders to (`Key.render`; injectivity is
+`C13_key_rendering_injective`).  `Key` is the key up to the equality a Python dict uses: `1 == 1.0 == True` are one key
+(`num 1`), `0 == 0.0 == False` another; tuples are compared item by item.  Rendering:
+
+```
+str s        ↦ s                 (or "#s" ++ s when s itself starts with '#')
+None         ↦ "#N"
+number q     ↦ "#n" ++ numerator ++ "/" ++ denominator          (lowest terms, denominator > 0)
+(a₁, …, aₙ)  ↦ "#t" ++ len(text a₁) ++ ":" ++ text a₁ ++ … ++ len(text aₙ) ++ ":" ++ text aₙ
+```
+
+Strings that do not start with `'#'` — all keys the library itself uses — are rendered as themselves. -/
+
+inductive KAtom where
+  | str (s : String)
+  | none
+  | num (q : Rat)
+  deriving Repr, DecidableEq
+
+inductive Key where
+  | atom (a : KAtom)
+  | tuple (l : List KAtom)
+  deriving Repr, DecidableEq
+
+def intChars (i : Int) : List Char :=
+  if i < 0 then '-' :: (Nat.repr i.natAbs).toList else (Nat.repr i.natAbs).toList
+
+/-- a str key: itself, escaped when it starts with '#' -/
+def strChars : List Char → List Char
+  | '#' :: r => '#' :: 's' :: '#' :: r
+  | l => l
+
+def KAtom.chars : KAtom → List Char
+  | .str s => strChars s.toList
+  | .none => ['#', 'N']
+  | .num q => '#' :: 'n' :: (intChars q.num ++ '/' :: (Nat.repr q.den).toList)
+
+/-- one item of a tuple: the length of its text, a colon, the text -/
+def chunk (a : KAtom) : List Char := (Nat.repr a.chars.length).toList ++ ':' :: a.chars
+
+def chunks : List KAtom → List Char
+  | [] => []
+  | a :: r => chunk a ++ chunks r
+
+def Key.chars : Key → List Char
+  | .atom a => a.chars
+  | .tuple l => '#' :: 't' :: chunks l
+
+/-- the string key of the model for a key of any type -/
+def Key.render (k : Key) : String := String.ofList k.chars
+
 /-! ### the state -/
 
 /-- one job's dict -/
@@ -299,6 +354,49 @@ def run : Store → List Op → Store × List Out
     let (s1, o) := step s op
     let (s2, os) := run s1 ops
     (s2, o :: os)
+
+/-! ### evaluator-level status: `Job.status` / `RunningJob.status`
+
+Client handles of a job (`Job(id, …, storage)` objects kept by an evaluator, the `RunningJob` handed to the run-function,
+objects made on the spot) keep NO status of their own: the getter is `JobStatus(storage.load_job_status(id))`, the setter
+`storage.store_job_status(id, status.value)`.  So any number of handles on one job, and the storage methods themselves, are
+one and the same view of the stored status. -/
+
+/-- `JobStatus(v).value`: one of 0…4; a value that is EQUAL to one of them (`True == 1`, `2.0 == 2`) names it; anything else
+is a `ValueError` -/
+def statusOfVal : Val → Option Int
+  | .int i => if 0 ≤ i ∧ i ≤ 4 then some i else none
+  | .bool b => some (if b then 1 else 0)
+  | .num q => if q.den = 1 ∧ 0 ≤ q.num ∧ q.num ≤ 4 then some q.num else none
+  | _ => none
+
+/-- what ANY handle on job `jid` shows -/
+def viewStatus (s : Store) (jid : String) : Out :=
+  match (step s (.loadJobStatus jid)).2 with
+  | .val v =>
+    match statusOfVal v with
+    | some i => .val (.int i)
+    | none => .error .valueError
+  | o => o
+
+/-- `handle.status = JobStatus(i)` through ANY handle on job `jid` -/
+def setStatus (s : Store) (jid : String) (i : Int) : Store × Out := step s (.storeJobStatus jid (.int i))
+
+/-- the defect class: a handle that remembers the status it last saw or wrote and, once that is DONE (2) or CANCELLED (4),
+answers from memory -/
+structure CachingHandle where
+  jid : String
+  seen : Option Int
+
+def CachingHandle.get (h : CachingHandle) (s : Store) : CachingHandle × Out :=
+  match h.seen with
+  | some 2 => (h, .val (.int 2))
+  | some 4 => (h, .val (.int 4))
+  | _ =>
+    match viewStatus s h.jid with
+    | .val (.int i) => ({ h with seen := some i }, .val (.int i))
+    | o => (h, o)
+
 
 /-! ### the specification: a simple map  search ↦ job ↦ record  (no order, no counters) -/
 
